@@ -483,10 +483,19 @@ class Binder:
                 ab, bc, ac = (direct(fix, '<=', x, y) for x, y in ((a, b), (b, c), (a, c)))
                 chains += 1
                 if ab is True and bc is True and ac is not True:
-                    v.violation(
-                        f"<= not transitive on the code: {show(vec['a'])} <= "
-                        f"{show(vec['b'])} <= {show(vec['c'])} but a <= c gives {brief(ac)}",
-                        dict(mode='transitive', a=vec['a'], b=vec['b'], c=vec['c']))
+                    desc = (f"<= not transitive on the code: {show(vec['a'])} <= "
+                            f"{show(vec['b'])} <= {show(vec['c'])} but a <= c gives {brief(ac)}")
+                    case = dict(mode='transitive', a=vec['a'], b=vec['b'], c=vec['c'])
+                    # the known deviation and nothing else: an operand is a
+                    # text spelled like an error value / like #EMPTY! and the
+                    # three answers are the defined ones under that reading
+                    devle = vec.get('devle') or None
+                    if devle and not any(mismatch(g, w) for g, w in zip((ab, bc, ac), devle)):
+                        case['deviant'] = devle
+                        v.known_finding(FINDING_ERROR_TEXT, desc + ' (the three answers '
+                                        'are the defined ones with the text read as blank)', case)
+                    else:
+                        v.violation(desc, case)
             if self.rnd.random() < formula_budget / max(1, len(vectors)):
                 sample.append(vec)
         # nested comparison through cells and formulas
